@@ -230,7 +230,16 @@ class Check:
                 pass
             os.makedirs(os.path.join(HARNESS, "bin"), exist_ok=True)
             binp = os.path.join(HARNESS, "bin", name + ("-race" if race else ""))
-            cmd = ["go", "build", "-tags", tags] + (["-race"] if race else []) + ["-o", binp, "./cmd/" + name]
+            modargs = []
+            if os.path.realpath(REPO) != "/repo":
+                # development aid: build against a scratch worktree without touching /repo (VERIF_REPO=<dir>)
+                mf = os.path.join(self.work, "alt.mod")
+                txt = open(os.path.join(HARNESS, "go.mod")).read().replace("=> /repo", "=> " + os.path.realpath(REPO))
+                open(mf, "w").write(txt)
+                open(os.path.join(self.work, "alt.sum"), "w").write(open(os.path.join(REPO, "go.sum")).read())
+                modargs = ["-modfile=" + mf]
+                binp += "-alt"
+            cmd = ["go", "build"] + modargs + ["-tags", tags] + (["-race"] if race else []) + ["-o", binp, "./cmd/" + name]
             rc, out = sh(cmd, cwd=HARNESS, env=GOENV, timeout=1500)
         if rc != 0:
             self.fail_obligation("harness-build:" + name, "go build of harness %s against /repo failed: %s" % (name, out[-1500:]))
